@@ -11,7 +11,7 @@ from dsim.runner import PROPS  # noqa
 TECH = "deterministic simulation with fault injection (seeded search over %s; executable reference model as oracle; ddmin-minimised replay files)"
 
 CLAIMED = {
-    "C04": ("fault_enumeration", "4/C04", "handler outcomes and crash points of scripted handler/listener actors",
+    "C04": ("fault_enumeration", "4/C04", "handler outcomes and crash points of scripted handler/listener actors, closed error stream, removed working directory",
             "Seeded runs of real ConsoleApplication.run with scripted handler and listener actors on simulated streams (or clikit's own StreamOutputStream over simulated text files of several encodings); the raise is injected at every step of each generated handler script (crash-point sweep), also out of the handler's own formatted write and after output that leaves a style open; earlier failing runs in the same process; a scenario that never returns is cut by a wall alarm and reported as a hang. Held on N runs = evidence, not proof.",
             "Trusts the actor scripts, the status reference model and the simulated streams; SystemExit/GeneratorExit are outside the statement."),
     "C05": ("exploration", "4/C05", "parse histories with failing parses as faults",
@@ -41,10 +41,10 @@ CLAIMED = {
     "C18": ("fault_enumeration", "4/C18", "answer scripts with end-of-input injected after every prefix",
             "Seeded dialogues against a dialogue reference model, read through a simulated input stream or clikit's own StreamInputStream/StringInputStream; every script is also run with EOF after each prefix, a torn last line and an over-long line; a second ask on a fresh I/O (optionally over the same source), a closed standard output; non-termination is decided by a read budget.",
             "stty is stubbed as unreachable (line-reading path); trusts the dialogue model."),
-    "C19": ("exploration", "4/C19", "thread schedules (seeded scheduler owning both threads), write latency, raising bodies",
+    "C19": ("exploration", "4/C19", "thread schedules (seeded scheduler owning both threads), write latency, short writes, one failing write, clock jumps, raising bodies",
             "Real spinner and caller threads are parked and released one at a time by a seeded scheduler at every write/sleep/event/thread operation (optionally every source line) under a virtual clock; screen oracle after every write; liveness by step caps.",
             "Pre-emption granularity is seams plus source lines of progress_indicator.py, not bytecodes."),
-    "C20": ("fault_enumeration", "4/C20", "source-store faults (missing, unreadable, truncated, replaced, exec'd) x exceptions x verbosity",
+    "C20": ("fault_enumeration", "4/C20", "source-store faults (missing, unreadable, truncated, replaced, exec'd, known to linecache only), removed working directory x exceptions x verbosity",
             "Generated modules served from an in-memory source store; each workload is rendered under each source-fault kind; oracle: render total, class name and message present, snippet grammar in the fault-free class; earlier renderings and earlier output on the same I/O (styles left open), a second rendering with another ignore pattern, verbosity or UTF-8 answer, clikit's BufferedIO and StreamOutputStream over files of several encodings.",
             "Trusts the source store seam (crashtest.frame.open + loader + linecache)."),
 }
